@@ -129,6 +129,17 @@ func scenario(c cfg) sched.Scenario {
 		}
 		ms := mainStor{mfs, s, &faultsOn, &res.Faults}
 		wcDir := filepath.Join(root, "wc")
+		// every file operation of the write-cache's own FSTree is a scheduling point: the windows between
+		// the file step and the accounting step of put/delete are the ones that matter here
+		fstree.VerifHook = func(t *fstree.FSTree, name string, args []any) ([]any, bool) {
+			if t != mfs && strings.HasPrefix(t.RootPath, wcDir) {
+				if a := sched.Active(); a != nil {
+					a.Point("wc." + name)
+				}
+			}
+			return nil, false
+		}
+		defer func() { fstree.VerifHook = nil }()
 		wc := writecache.New(writecache.WithPath(wcDir), writecache.WithStorage(ms), writecache.WithFlushWorkersCount(c.workers),
 			writecache.WithMaxFlushBatchCount(c.batchCnt), writecache.WithMaxFlushBatchThreshold(threshold),
 			writecache.WithNoSync(true), writecache.WithReportErrorFunc(func(m string, err error) {
@@ -256,6 +267,10 @@ func scenario(c cfg) sched.Scenario {
 			if c.tag != "" {
 				cls += ":" + c.tag
 			}
+			// how many preemptions the schedule needs tells the mechanisms apart (the recorded finding
+			// needs two: worker file removal | whole repeated put | worker entry removal)
+			pre, _, _ := sched.Costs(x)
+			cls += fmt.Sprintf(":preemptions=%d", pre)
 			return cls, fmt.Sprintf("cache holds %d files, accounts for %d (%+v)", len(res.CacheFiles), res.MapLen, res)
 		}
 		if res.Reported != res.CacheBytes {
